@@ -1,7 +1,7 @@
 SPECIFICATION Spec
 CONSTANTS
   MaxToks = 4
-  Toks = {1,2,3,4,5,6,7,8,9,10,11,12,13,14,15}
+  Toks = {1,2,3,4,5,6,7,8,9,10,11,12,13,14,15,16}
 INVARIANTS Refines ParaInv Bounded
 PROPERTY Terminates
 CHECK_DEADLOCK FALSE
